@@ -76,6 +76,13 @@ def _ns(lp, locs):
     d["old"] = lambda o: old_view(o, pre)
     # state at the latest of: function entry, last resume after a yield, last world-havoc loop head
     d["since"] = lambda o: old_view(o, getattr(_c(), "seg_state", None) or pre)
+    # "entry" | "assume" (loop head, after the havoc) | "step" (end of one iteration): lets a clause state a
+    # per-iteration postcondition (`True if L.loop_phase != "step" else ...` is only ever an obligation)
+    d["loop_phase"] = getattr(lp, "phase", None)
+    # view of an object in the state at this loop's head (after the havoc): with loop_phase == "step" a clause can
+    # relate the end of ONE iteration to its start (before the first havoc it is the function's pre-state)
+    d["at_head"] = lambda o: old_view(o, getattr(lp, "head_state", None) or pre)
+    d["head_state"] = getattr(lp, "head_state", None) or pre
     return _NS(d)
 
 
@@ -93,6 +100,7 @@ class _SetView:
 
 def _check_inv(lp, locs, phase):
     c = _c()
+    lp.phase = phase
     ns = _ns(lp, locs)
     for name, fn in lp.spec.inv:
         c.spec_mode += 1
@@ -105,6 +113,7 @@ def _check_inv(lp, locs, phase):
 
 def _assume_inv(lp, locs):
     c = _c()
+    lp.phase = "assume"
     ns = _ns(lp, locs)
     from .sym import to_z3_bool
     for name, fn in lp.spec.inv:
@@ -369,6 +378,7 @@ def loop_havoc(lp, names, locs):
         lp.visited = c.fresh("lp_visited", z3.ArraySort(lp.kty.sort(), z3.BoolSort()))
         c.assume(z3.IsSubset(lp.visited, lp.dom))
     lp.pre_arrays = dict(c.heap.st.arrays)
+    lp.head_state = c.heap.snapshot()       # `L.at_head(obj)`: the (arbitrary) state this iteration starts in
     _assume_inv(lp, {k: v for k, v in newlocs.items() if v is not UNBOUND})
     if spec.decreases is not None:
         lp.dec0 = spec.decreases(_ns(lp, {k: v for k, v in newlocs.items() if v is not UNBOUND}))
